@@ -644,7 +644,7 @@ def _ecdsa_pool(r, f, focus, max_diff=256):
     add_group(iss.healthy(r, max(1, nh)), None)
   fams = ["msb", "prefix", "postfix", "u2f", "weak_key", "invalid_key",
           "unknown_curve", "dup_sig", "hash_lens", "relabelled_key",
-          "close_keys", "close_keys", "multi_fail"]
+          "close_keys", "close_keys", "multi_fail", "lcg_java", "lcg_gmp"]
   enabled = set(r.sample(fams, r.randint(0 if focus == "C18" else 1, 4)))
   for kind in ("msb", "prefix", "postfix"):
     if kind in enabled:
@@ -678,6 +678,14 @@ def _ecdsa_pool(r, f, focus, max_diff=256):
         a["fam"] = "close_issuer_keys"
         a["healthy"] = False
       add_group(arts, None)
+  if "lcg_java" in enabled:
+    c = A.curve_by_name(r.choice(["secp256r1", "secp256k1"]))
+    arts = A.sigs_java_lcg(r, c, "I%d" % label, r.randint(2, 3))
+    add_group(arts, 1)
+  if "lcg_gmp" in enabled:
+    arts = A.sigs_upstream_gmp_lcg("I%d" % label)
+    if arts:
+      add_group(arts, 1)
   if "multi_fail" in enabled:
     # an issuer key that fails two EC checks of different severity: weak curve
     # (MEDIUM) and structured private key (CRITICAL), or structured key plus a
@@ -826,6 +834,22 @@ def gen_ecdsa(r, tier, f, focus):
       budget -= cost
     ops.append(op)
 
+  for fam, cname, cost in (("lcg:java", "CheckLCGNonceJavaUtilRandom", 22.0),
+                           ("lcg:gmp", "CheckLCGNonceGMP", 4.0)):
+    grp = [j for j in range(n) if pool[j]["fam"] == fam]
+    if grp and budget >= cost:
+      # the positive path of the LCG checks, with a neighbour of another issuer
+      budget -= cost
+      others = [j for j in range(n) if pool[j]["healthy"] and
+                pool[j]["curve"] == pool[grp[0]]["curve"]][:1]
+      b = grp + others
+      r.shuffle(b)
+      ops.append({"op": "check", "batch": b,
+                  "check": {"name": cname, "how": "registry", "via": "all"},
+                  "oracle": [{"relation": "perm", "order": r.sample(b, len(b))}]
+                  if cname == "CheckLCGNonceGMP" and r.random() < f["oracle"]
+                  else []})
+      length += 1
   fault_left = 1 if r.random() < f["fault"] else 0
   close = [j for j in range(n) if pool[j]["fam"] == "close_issuer_keys"]
   if close and r.random() < 0.6 and budget > 12:
